@@ -5,12 +5,15 @@
 (*   NoJoin         a line comment is the last thing on its output line          (C12 "never changes meaning")   *)
 (*   TerminalsKept  the code/label chunks spell exactly the terminals of the source, in order                    *)
 (*   StepwiseIsFunctional  the stepwise machine ends in Format(file, opts)                                        *)
-(* With Deviations = {} (the property as stated) TLC finds the gap in front of a block's "{" whose comments       *)
-(* format_block discards; with Deviations = {"OpenBraceGapDropped"} (the recorded finding) everything passes.    *)
+(* Two constants: Devs (Format.tla) selects for every recorded defect the pinned or the repaired reading of the    *)
+(* machine; Allowed names the deviations by which the invariants are weakened.  A regular run has Devs = Allowed  *)
+(* = the findings still open.  For every recorded defect d - open or repaired - a run with d in Devs and d not in *)
+(* Allowed must be refuted by TLC: that is the design-level exhibition of the defect (open) resp. the binding     *)
+(* demonstration that the pinned reading is no longer what the property accepts (repaired).                      *)
 (* Every finished run is printed as a case for replay into the real formatter.                                   *)
 EXTENDS Format, Json
 
-CONSTANTS Deviations, Indents, Margins, CodeMargins, ReplayIndent
+CONSTANTS Allowed, Indents, Margins, CodeMargins, ReplayIndent
 
 T0 == <<>>
 W == <<[k |-> "ws", p |-> <<" ">>]>>
@@ -64,12 +67,17 @@ Variants(s, g, tr) == { [body |-> <<Nop, [Put(s, g, tr) EXCEPT !.lead = N1 \o @]
                         [body |-> <<Put(s, g, tr)>>, eof |-> T0] }
 Files == UNION { UNION { UNION { Variants(Forms[f], g, tr) : tr \in (IF IsMulti(g) THEN Multi ELSE Inline) }
                          : g \in Gaps(Forms[f]) } : f \in 1..Len(Forms) }
+(* two statements sharing a source line (no newline in the gap between them), and `else` already on a line of its own *)
+Ident == St("insn", "lda", <<P("foo", "t", W)>>, <<>>, <<>>, T0)
+SameLineFiles == { [body |-> <<a, [b EXCEPT !.lead = W]>>, eof |-> N1] : a \in {Ident, Forms[12], Forms[6]}, b \in {Forms[1], Forms[12], Forms[4], Forms[6]} }
+ElseFiles == { [body |-> <<[Forms[8] EXCEPT !.ge = g]>>, eof |-> N1] : g \in {W, N1 \o W, N1 \o <<Block1>> \o N1} }
+AllFiles == Files \cup SameLineFiles \cup ElseFiles
 OptGrid == [mcase : {"l", "u"}, rcase : {"l"}, brace : {"same", "new"}, indent : Indents, lm : Margins, align : {"l", "r"}, cm : CodeMargins]
 
 VARIABLES file, opts, phase, vst, i, js, k
 vars == <<file, opts, phase, vst, i, js, k>>
 
-Init == /\ file \in Files /\ opts \in OptGrid
+Init == /\ file \in AllFiles /\ opts \in OptGrid
         /\ phase = "visit" /\ vst = VisitStart(VInit, file.body, file.eof, FALSE) /\ i = 1 /\ js = JInit /\ k = 1
 VisitTok == /\ phase = "visit" /\ i <= Len(file.body) + 1
             /\ vst' = VisitStep(vst, file.body, file.eof, i, opts) /\ i' = i + 1
@@ -100,7 +108,7 @@ ChunkText(ch) == IF Len(ch) = 0 THEN "" ELSE (IF Head(ch).ty = "comment" THEN ""
 AtEnd == phase = "done"
 CommentsKept ==
   AtEnd => \/ ChunkComments(vst.ch) = AllComments(file)
-           \/ /\ "OpenBraceGapDropped" \in Deviations
+           \/ /\ "OpenBraceGapDropped" \in Allowed
               /\ BodyHasDroppedComment(file.body) /\ ChunkComments(vst.ch) = ForwardedComments(file)
 NoJoin == AtEnd => LineCommentEndsLine(vst.ch)
 TerminalsKept == AtEnd => ChunkText(vst.ch) = BodyText(file.body, opts)
@@ -115,7 +123,21 @@ NoDoubleBlank == AtEnd => \A n \in 1..(Len(js.res) - 1) : ~(js.res[n] = "" /\ js
 ContinuationVerbatim ==
   (AtEnd /\ HasBlock2Forwarded) =>
      \/ \E n \in 1..Len(js.res) : Len(js.res[n]) >= 4 /\ SubSeq(js.res[n], 1, 4) = "d */"
-     \/ "BlockCommentContinuationPadded" \in Deviations /\ opts.lm + opts.indent > 0
+     \/ "BlockCommentContinuationPadded" \in Allowed /\ opts.lm + opts.indent > 0
+(* every top-level statement that is not a label gets (at least) a line of its own: gluing `lda foo` and `lda #1`  *)
+(* changes the tokens (C12; named deviation SameLineStatementsGlued)                                               *)
+NonBlankCount(ls) == Cardinality({n \in 1..Len(ls) : ls[n] # ""})
+OneStatementPerLine ==
+  AtEnd => \/ NonBlankCount(js.res) >= Cardinality({n \in 1..Len(file.body) : file.body[n].k # "label"})
+           \/ "SameLineStatementsGlued" \in Allowed /\ BodyHasSameLinePair(file.body)
+(* an `else` that follows its "}" directly (same line or next line, possibly after a comment line) is not pushed    *)
+(* away by a blank line: otherwise the formatter's own output is not a fixed point (C13; ElseOnNewLineGainsBlankLine) *)
+RECURSIVE TrimStart(_)
+TrimStart(x) == IF Len(x) > 0 /\ Ch(x, 1) = " " THEN TrimStart(SubSeq(x, 2, Len(x))) ELSE x
+ElseStaysAttached ==
+  (AtEnd /\ file \in ElseFiles) =>
+     \/ \A n \in 1..(Len(js.res) - 1) : js.res[n] = "" => TrimStart(js.res[n + 1]) \notin {"else", "/* c */"}
+     \/ "ElseOnNewLineGainsBlankLine" \in Allowed /\ opts.brace = "new"
 (* vacuity witnesses (expected to be violated) *)
 NeverDone == ~AtEnd
 NeverDropped == AtEnd => ~BodyHasDroppedComment(file.body)
